@@ -136,6 +136,8 @@ pub enum Node {
     Render { name: Expr, mode: RenderMode, args: Vec<(String, Expr)> },
     Probe(Expr),
     Abort(AbortKind),
+    /// A fixed, syntactically valid source snippet (whitespace-control markers on tags and outputs).
+    Snippet(String),
 }
 
 pub fn print_nodes(nodes: &[Node]) -> String {
@@ -283,6 +285,7 @@ fn print_node(n: &Node, s: &mut String) {
             tag(s, &h);
         }
         Node::Probe(e) => tag(s, &format!("probe {}", e.print())),
+        Node::Snippet(t) => s.push_str(t),
         Node::Abort(k) => match k {
             AbortKind::DivZero => s.push_str("{{ 7 | divided_by: zero }}"),
             AbortKind::Undefined => s.push_str("{{ undefined_name }}"),
@@ -368,6 +371,7 @@ pub fn constructs(nodes: &[Node], out: &mut BTreeMap<&'static str, u64>) {
             Node::Render { .. } => "render",
             Node::Probe(_) => "probe",
             Node::Abort(_) => "abort",
+            Node::Snippet(_) => "snippet",
         };
         *out.entry(k).or_insert(0) += 1;
         for b in bodies(n) {
@@ -431,6 +435,8 @@ pub struct GenCfg {
     pub max_nodes: usize,
     /// names of partials this template may invoke (already ordered acyclically)
     pub partials: Vec<String>,
+    /// stored names of the callable partials (`x.liquid` is invoked as `x`)
+    pub stored: Vec<String>,
     /// names that do not exist in the source (absent partials)
     pub absent: Vec<String>,
     pub allow_abort: bool,
@@ -441,9 +447,20 @@ pub struct GenCfg {
     pub allow_dynamic_names: bool,
 }
 
-pub const KINDS: [&str; 21] = [
+pub const KINDS: [&str; 22] = [
     "text", "output", "assign", "capture", "incr", "decr", "cycle", "if", "unless", "case", "for", "tablerow", "ifchanged", "raw",
-    "comment", "break", "continue", "include", "render", "probe", "abort",
+    "comment", "break", "continue", "include", "render", "probe", "abort", "snippet",
+];
+
+const SNIPPETS: [&str; 8] = [
+    "  {%- if true -%}  t  {%- endif -%}  ",
+    "a {{- 'b' -}} c",
+    "\n{%- comment -%} hidden {%- endcomment -%}\n",
+    " {%- raw -%} {{ raw }} {%- endraw -%} ",
+    "x\n\n  {%- increment a -%}\n\n  y",
+    "{% if 1 == 1 or 2 == 3 and 'a' contains 'b' %}T{% else %}F{% endif %}",
+    "{% case 2 %}{% when 1 or 2 %}two{% when 3, 4 %}three{% else %}other{% endcase %}",
+    "{% cycle 1, 2, 3 %}{% cycle 1, 2, 3 %}",
 ];
 
 impl GenCfg {
@@ -468,6 +485,13 @@ impl GenCfg {
                 "tablerow" => 3,
                 "probe" => 2,
                 "abort" => 1,
+                "snippet" => {
+                    if stateful_bias {
+                        6
+                    } else {
+                        2
+                    }
+                }
                 _ => 2,
             };
             let on = matches!(*k, "text" | "output") || rng.chance(3, 4);
@@ -478,6 +502,7 @@ impl GenCfg {
             max_depth: 2 + rng.below(3),
             max_nodes: 6 + rng.below(26),
             partials: vec![],
+            stored: vec![],
             absent: vec![],
             allow_abort: rng.chance(1, 3),
             allow_probe: true,
@@ -500,7 +525,7 @@ const TEXTS: [&str; 21] = [
     "Lorem ipsum dolor sit amet, consectetur adipiscing elit, sed do eiusmod tempor incididunt ut labore.",
 ];
 
-const STRS: [&str; 14] = ["", " ", "a", "b", "Abc def", "1", "2.5", "true", "é∑", "x,y,z", ",", ", ", "a ", "xÄäÖöÜüß∑😀ÄäÖöÜüß∑😀ÄäÖöÜüß∑😀"];
+const STRS: [&str; 15] = ["it's", "", " ", "a", "b", "Abc def", "1", "2.5", "true", "é∑", "x,y,z", ",", ", ", "a ", "xÄäÖöÜüß∑😀ÄäÖöÜüß∑😀ÄäÖöÜüß∑😀"];
 
 pub struct Gen<'a> {
     pub rng: &'a mut Rng,
@@ -560,7 +585,7 @@ impl<'a> Gen<'a> {
     }
 
     fn var(&mut self) -> Expr {
-        let v = match self.rng.below(12) {
+        let v = match self.rng.below(20) {
             0 => "arr".to_string(),
             1 => "arr[0]".to_string(),
             2 => "arr.first".to_string(),
@@ -569,6 +594,13 @@ impl<'a> Gen<'a> {
             5 => "arr.size".to_string(),
             6 => "s".to_string(),
             7 => "forloop.index".to_string(),
+            8 => "arr.last".to_string(),
+            9 => "arr[1]".to_string(),
+            10 => "obj['k']".to_string(),
+            11 => ["forloop.first", "forloop.last", "forloop.length", "forloop.rindex0", "forloop.index0"][self.rng.below(5)].to_string(),
+            12 => ["tablerow.col", "tablerow.col_first", "tablerow.index"][self.rng.below(3)].to_string(),
+            13 => "objs[0].k".to_string(),
+            14 => "s.size".to_string(),
             _ => self.name(),
         };
         Expr::Var(v)
@@ -584,13 +616,17 @@ impl<'a> Gen<'a> {
 
     /// Variable that exists in every generated data object (so output does not abort).
     fn var_safe(&mut self) -> Expr {
-        let v = match self.rng.below(10) {
+        let v = match self.rng.below(14) {
             0 => "arr".to_string(),
             1 => "arr[0]".to_string(),
             2 => "arr.first".to_string(),
             3 => "obj.k".to_string(),
             4 => "obj".to_string(),
             5 => "s".to_string(),
+            6 => "arr.last".to_string(),
+            7 => "obj['k']".to_string(),
+            8 => "objs[0].k".to_string(),
+            9 => "objs".to_string(),
             _ => self.name(),
         };
         Expr::Var(v)
@@ -853,7 +889,8 @@ impl<'a> Gen<'a> {
             "include" => match self.partial_name() {
                 Some(name) => {
                     // `include` has no `.liquid` fallback: name the stored partial in full, mostly
-                    let name = if name == Expr::Str("x".into()) && self.rng.chance(2, 3) { Expr::Str("x.liquid".into()) } else { name };
+                    let only_dotted = self.cfg.stored.iter().any(|n| n == "x.liquid") && !self.cfg.stored.iter().any(|n| n == "x");
+                    let name = if only_dotted && name == Expr::Str("x".into()) && self.rng.chance(2, 3) { Expr::Str("x.liquid".into()) } else { name };
                     Node::Include { name, args: self.args() }
                 }
                 None => Node::Text("i".into()),
@@ -869,7 +906,7 @@ impl<'a> Gen<'a> {
                     self.restricted -= 1;
                     let mut args = self.args();
                     if self.rng.chance(3, 4) {
-                        for n in IMMUTABLE.iter().chain(["arr", "obj", "s", "zero"].iter()) {
+                        for n in IMMUTABLE.iter().chain(["arr", "obj", "objs", "s", "zero"].iter()) {
                             if !args.iter().any(|(k, _)| k == n) {
                                 args.push((n.to_string(), Expr::Var(n.to_string())));
                             }
@@ -883,6 +920,13 @@ impl<'a> Gen<'a> {
                 Some(name) => Node::Probe(name),
                 None => Node::Text("p".into()),
             },
+            "snippet" => {
+                if self.rng.chance(2, 3) {
+                    Node::Snippet(self.idiom())
+                } else {
+                    Node::Snippet(SNIPPETS[self.rng.below(SNIPPETS.len())].to_string())
+                }
+            }
             "abort" => Node::Abort(match self.rng.below(4) {
                 0 => AbortKind::DivZero,
                 1 => AbortKind::Undefined,
@@ -890,6 +934,45 @@ impl<'a> Gen<'a> {
                 _ => AbortKind::DataDependent,
             }),
             _ => unreachable!(),
+        }
+    }
+
+    /// State-sensitive shapes that random composition rarely produces: a stateful tag (ifchanged,
+    /// cycle, increment, capture) inside a loop but behind a guard that is false for the first
+    /// items, after a `continue`, before a `break`, or under a data-dependent condition.
+    fn idiom(&mut self) -> String {
+        let n = 2 + self.rng.below(3); // loop length 2..4
+        let k = self.rng.below(n); // guard threshold
+        let v = ["i", "j", "v"][self.rng.below(3)];
+        let imm = IMMUTABLE[self.rng.below(IMMUTABLE.len())];
+        let body = match self.rng.below(5) {
+            0 => "x".to_string(),
+            1 => format!("{{{{ {v} | modulo: 2 }}}}"),
+            2 => format!("{{{{ {imm} }}}}"),
+            3 => format!("[{{{{ {v} }}}}]"),
+            _ => "{{ s }}".to_string(),
+        };
+        let src = if self.rng.chance(1, 2) { format!("(1..{n})") } else { "arr".to_string() };
+        let stateful = match self.rng.below(6) {
+            0 | 1 => format!("{{% ifchanged %}}{body}{{% endifchanged %}}"),
+            2 => "{% cycle 'p', 'q', 'r' %}".to_string(),
+            3 => format!("{{% cycle {imm}: 'p', 'q' %}}"),
+            4 => "{% increment c %}".to_string(),
+            _ => format!("{{% capture d %}}{body}{{% endcapture %}}{{{{ d }}}}"),
+        };
+        match self.rng.below(7) {
+            // guarded by the loop position: not reached in the first iteration(s)
+            0 | 1 => format!("{{% for {v} in {src} %}}{{% if forloop.index > {k} %}}{stateful}{{% endif %}}{{% endfor %}}"),
+            // after a continue
+            2 => format!("{{% for {v} in {src} %}}{{% if forloop.index <= {k} %}}{{% continue %}}{{% endif %}}{stateful}{{% endfor %}}"),
+            // before a break
+            3 => format!("{{% for {v} in {src} %}}{stateful}{{% if forloop.index > {k} %}}{{% break %}}{{% endif %}}{{% endfor %}}{stateful}"),
+            // under a data-dependent condition (a and b are small integers half the time)
+            4 => format!("{{% for {v} in {src} %}}{{% if {imm} > {k} %}}{stateful}{{% else %}}-{{% endif %}}{{% endfor %}}"),
+            // nested loops sharing the stateful tag
+            5 => format!("{{% for {v} in {src} %}}{{% for w in (1..2) %}}{{% if {v} != 1 %}}{stateful}{{% endif %}}{{% endfor %}}{{% endfor %}}"),
+            // tablerow with a break inside a cell, then the stateful tag again
+            _ => format!("{{% tablerow {v} in (1..{n}) cols:2 %}}{stateful}{{% if {v} == {k} %}}{{% break %}}{{% endif %}}{{% endtablerow %}}{stateful}"),
         }
     }
 
@@ -962,6 +1045,7 @@ pub fn gen_data(rng: &mut Rng, partial_names: &[String], holes: bool) -> Dv {
     }
     o.push(("arr".into(), Dv::Array((0..1 + rng.below(4)).map(|_| scalar_dv(rng)).collect())));
     o.push(("obj".into(), Dv::Object(vec![("k".into(), scalar_dv(rng))])));
+    o.push(("objs".into(), Dv::Array((0..1 + rng.below(3)).map(|_| Dv::Object(vec![("k".into(), scalar_dv(rng))])).collect())));
     o.push(("s".into(), Dv::str(STRS[rng.below(STRS.len())])));
     o.push(("zero".into(), if rng.chance(1, 2) { Dv::Int(0) } else { Dv::Int(1 + rng.below(3) as i64) }));
     if !holes || rng.chance(1, 2) {
@@ -1058,7 +1142,7 @@ pub fn gen_partials(rng: &mut Rng, base: &GenCfg, corrupt_per_8: u32, absent_per
     if n > 0 && rng.chance(1, 5) {
         let i = rng.below(n);
         if !names[i].starts_with('x') {
-            names[i] = if rng.chance(1, 2) { "d/p".to_string() } else { "d\\p".to_string() };
+            names[i] = ["d/p", "d\\p", "My Partial", "p-1", "dir/sub/p.html"][rng.below(5)].to_string();
         }
     }
     let mut absent = vec![];
@@ -1078,6 +1162,7 @@ pub fn gen_partials(rng: &mut Rng, base: &GenCfg, corrupt_per_8: u32, absent_per
             cfg.allow_dynamic_names = false;
             // callable: later partials (already generated), by invocation name
             cfg.partials = defs.iter().map(|d: &PartialDef| invocation_name(&d.name)).collect();
+            cfg.stored = defs.iter().map(|d: &PartialDef| d.name.clone()).collect();
             cfg.absent = if rng.chance(1, 6) { absent.clone() } else { vec![] };
             let mut g = Gen::new(rng, &cfg);
             PartialBody::Valid(g.template())
